@@ -5,7 +5,10 @@
    (1 a b c d) MatrixRange by a..b, c..d | (2 rr cc) MatrixReverse | (3 n0 n1) MatrixRefTensor over
    TensorRefMatrix::with_names | (4) the same with TensorRefMatrix::from; probes (r c); writes
    (r c x) through MatrixView::set.  Result (2) partition panicked | (1 shape) tensor wrapper refused
-   | (0 (size probes row_major_iter write-outcomes root-data)), probe = () absent / (x) / (0 0) panic.
+   | (0 (size probes row_major_iter write-outcomes root-data layouts (mut-probes unchecked-mut-cells))),
+   probe = () absent / (x) / (0 0) panic; probes go through try_get_reference, row_major_iter through
+   get_reference_unchecked, the writes and mut-probes through try_get_reference_mut, the last list through
+   get_reference_unchecked_mut on every cell of the view: four code paths, four model functions.
    (12 2 rows cols data rp cp) partition, (12 3 rows cols data r c) partition_quadrants: (2) or
    (0 (parts root-data-after-filling-part-k-with-1000+k)), part = (size cells).
    (12 5 start ops rp cp): the matrix a C11 history (tools/props/c11.py) ends with is partitioned:
@@ -13,13 +16,18 @@
    (12 6 term wrappers probes writes): the same stacks over MatrixRefTensor::from(t), t the
    2-dimensional tensor view `term` of the C02 language (every single adaptor over four base shapes,
    random terms to depth 4, with Tensor and TensorRefMatrix leaves, stacks and chains of several leaves).
+   (12 7 rows cols data revs mops probes): SOURCE-MUTATION HISTORY — one to three nested MatrixReverse views over the
+   matrix (borrowed, owned, shorthand constructors, source() round trips), the matrix is changed THROUGH the view
+   (source_ref_mut chain) by insert_row / insert_column / remove_row / remove_column / transpose_mut / set (valid and
+   invalid arguments) and the same view object is observed before and after every operation through all four access
+   forms and row_major_iter; the model re-evaluates the view term over the matrix as it is now.
    Exhaustive: every size <= 4x4; every range request over {0..5, usize::MAX}^2 per axis (full
    row x column product in the thorough tier); the four reversal settings over every size and over
    empty ranges; every sublist of 0..=rows x every sublist of 0..=cols as a partition, plus
    non-ascending / repeated / too large lists; every quadrant split incl. out of range; every
    two-wrapper stack over a reduced alphabet; random stacks to depth 5 over every kind of leaf.
-   All probes include one-past-the-end and usize::MAX indexes; shared, mutable and unchecked forms
-   are cross-checked inside the harness (unchecked only on present cells)."""
+   All probes include one-past-the-end and usize::MAX indexes; the shared, mutable and unchecked forms
+   are printed separately and compared with their own model functions (unchecked only on present cells)."""
 import itertools
 from tools.vlib import sx, MAXU
 from tools.props import c11 as _c11
@@ -29,8 +37,11 @@ THEOREMS_FILE = "C12"
 TRUSTED = ["harness/src/c12.rs `Erased<'a, E>`: an unsafe impl of MatrixRef / MatrixMut / NoInteriorMutability by pure "
            "delegation to a boxed trait object, needed to build stacks of views whose depth is only known at run time"]
 ASSUMPTIONS = [
-    "one model function (`try_get`) stands for the shared, mutable and unchecked accessors, which are separate code paths: "
-    "their agreement is cross-checked by the harness on every probe (unchecked forms only on present cells, hooks on)",
+    "the shared, mutable and unchecked accessors are separate model functions (Model/MatrixAccess.v) proved to agree on "
+    "present indexes (Proofs/C12Access.v); each is printed on its own by the harness: shared checked = the probes, shared "
+    "unchecked = row_major_iter, mutable checked = the probes again through try_get_reference_mut, mutable unchecked = every "
+    "cell of the view (unchecked forms on present cells only, hooks on); API forms sharing one code path are cross-checked",
+    "the unchecked getters of a tensor view under MatrixRefTensor::from(t) are C02's (one index computation there)",
     "MatrixMap is crate private; it is exercised only through Display for RecordMatrix over the same stack of views",
     "partition results are compared through the parts' sizes, cells and a write of a distinct value through every part",
 ]
@@ -103,7 +114,57 @@ def rand_leaf(rng, rows, cols):
             rng.randrange(cols + 1), rng.randrange(4)]
 
 
+def source_history_cases(rng, quick):
+    """(12 7 ..): every single reversal setting x every single resizing operation at every position for
+    sizes <= 3x3, then random histories (1-4 operations) under 1-3 nested reversals"""
+    def mops_for(rows, cols):
+        out = []
+        for r in range(rows + 2):
+            out.append([0, r, 700 + r])
+            out.append([4, r])
+        for c in range(cols + 2):
+            out.append([2, c, 800 + c])
+            out.append([5, c])
+        out.append([9])
+        out.append([10, rows - 1, cols - 1, 555])
+        out.append([4, MAXU])
+        return out
+    for rows in range(1, 4):
+        for cols in range(1, 4):
+            for rr in (0, 1):
+                for cc in (0, 1):
+                    for o in mops_for(rows, cols):
+                        if quick and (rr, cc) == (0, 0) and rng.random() < 0.7:
+                            continue
+                        yield sx([12, 7, rows, cols, data(rows, cols), [[rr, cc]], [o], PROBES])
+    def rand_mop(rows, cols):
+        t = rng.randrange(9)
+        if t < 2:
+            return [0, rng.randrange(rows + 2), rng.randrange(600, 700)]
+        if t < 4:
+            return [2, rng.randrange(cols + 2), rng.randrange(600, 700)]
+        if t < 5:
+            return [4, rng.randrange(rows + 1)]
+        if t < 6:
+            return [5, rng.randrange(cols + 1)]
+        if t < 7:
+            return [9]
+        if t < 8:
+            return [10, rng.randrange(rows + 1), rng.randrange(cols + 1), rng.randrange(900, 999)]
+        return rng.choice([[4, MAXU], [0, MAXU, 1], [5, 7], [2, 9, 1]])
+    for _ in range(500 if quick else 5000):
+        rows, cols = rng.randrange(1, 5), rng.randrange(1, 5)
+        revs = [[rng.randrange(2), rng.randrange(2)] for _ in range(rng.choice([1, 1, 1, 2, 2, 3]))]
+        ops = [rand_mop(rows, cols) for _ in range(rng.randrange(1, 5))]
+        yield sx([12, 7, rows, cols, data(rows, cols), revs, ops, PROBES if rng.random() < 0.3 else PROBES[::3]])
+
+
 def gen(tier, rng):
+    yield from source_history_cases(rng, tier == "quick")
+    yield from gen_views(tier, rng)
+
+
+def gen_views(tier, rng):
     quick = tier == "quick"
     sizes = [(r, c) for r in range(1, 5) for c in range(1, 5)]
     reqs = [(a, b) for a in VALS for b in VALS]
@@ -298,6 +359,8 @@ def distribution(lines):
             kinds["partition_after_history"] += 1
         elif ln.startswith("(12 6"):
             kinds["over_tensor_view"] = kinds.get("over_tensor_view", 0) + 1
+        elif ln.startswith("(12 7"):
+            kinds["source_mutation_history"] = kinds.get("source_mutation_history", 0) + 1
         else:
             kinds["view"] += 1
     for ln in [x for x in lines if x.startswith("(12 1")][::25]:
